@@ -24,6 +24,8 @@ func init() {
 			"G3 receiver passing: function vs method properties x call forms (o.p(x), o['p](o,x), extracted) x anonymous chains in functions, methods and nested literal calls; G4 recursion depth 0..4 with per-frame locals and escaping closures; " +
 			"G5 every sequence of <=2 (thorough 3) calls over 10 argument lists that unpack the same objects/arrays held in variables (**opts, **opts **extra, *xs *xs, k: with **, method call last), printing what each call received and the unpacked objects afterwards; " +
 			"G6 every sequence of <=3 rebinding steps (alias, rebind to another function / an int, bind a function to a free name of its own body, compound and right assignment) over a recursive function and a function with two free names, all surviving function values called afterwards; " +
+			"G7 list-chain property calls (3 elements x {@,=@,&@} x function/method property x 0..14 positional arguments x with/without a keyword): every element receives the written arguments; " +
+			"G8 one literal evaluated several times (factory called 2-3 times, list-chain body, recursion): keyword defaults and captures of its own evaluation; G9 a first call that binds extra names (second argument, undeclared/declared keyword) followed by a call without them; " +
 			"oracle = independent reference evaluator; non-trivial = program with a closure call after a reassignment, an arity/keyword mismatch or a receiver; distinct = distinct source",
 		Assumptions: []string{
 			"don't-care: with fewer arguments than parameters \\N/\\0 show the nil padding: arg variables are compared only for positions actually received and \\0 only without padding",
@@ -507,6 +509,98 @@ func genG6(emit func(tcase)) {
 	rec(nil, base, map[string]string{"lim": "int", "fact": "fact", "chk": "chk"})
 }
 
+// ---------------------------------------------------------------- G7 / G8 / G9
+
+// genG7: a property call in a list chain passes the receiver first and the SAME written arguments to every element
+// (k = 0..14 positional arguments, with and without a keyword argument; function and method properties).
+func genG7(emit func(tcase)) {
+	for k := 0; k <= 14; k++ {
+		args := make([]string, k)
+		for i := range args {
+			args[i] = fmt.Sprint(100 + i)
+		}
+		al := strings.Join(args, ", ")
+		for _, kind := range []string{"method", "func"} {
+			prop := "m{|| [self['id], \\0[1:], \\_]}"
+			if kind == "func" {
+				prop = "{|s| [s['id], \\0[1:], \\_]}"
+			}
+			for _, kw := range []string{"", "q: 7"} {
+				call := al
+				if kw != "" {
+					if call != "" {
+						call += ", "
+					}
+					call += kw
+				}
+				kwRepr := "{}"
+				if kw != "" {
+					kwRepr = `{"q": 7}`
+				}
+				var want []string
+				for id := 1; id <= 3; id++ {
+					want = append(want, fmt.Sprintf("[%d, [%s], %s]", id, al, kwRepr))
+				}
+				for _, ch := range []string{"@", "=@", "&@"} {
+					src := "mk := {|i| {id: i, p: " + prop + "}}\nos := [mk(1), mk(2), mk(3)]\nos" + ch + "p(" + call + ")"
+					emit(tcase{Family: "G7/list-chain-property-call-arguments", Src: src, Val: "[" + strings.Join(want, ", ") + "]", NT: true})
+				}
+			}
+		}
+	}
+}
+
+// genG8: one literal evaluated several times (a factory called twice, the body of a list chain): every function
+// value has the keyword defaults and the captured variables of ITS evaluation.
+func genG8(emit func(tcase)) {
+	mkf := fn([]string{"d"}, funcLit{kw: []kwparam{{"k", v("d")}}, params: []string{"a"}, body: []node{arr(v("a"), v("k"), v("d"))}})
+	for _, calls := range [][][2]int{{{1, 0}, {2, 0}}, {{1, 0}, {2, 0}, {1, 0}}, {{5, 0}, {5, 9}, {6, 0}}, {{3, 9}, {4, 0}, {3, 0}}} {
+		prog := []node{set("mkf", mkf)}
+		var res []node
+		for ci, cl := range calls {
+			name := fmt.Sprintf("f%d", ci)
+			prog = append(prog, set(name, callv("mkf", intLit{cl[0]})))
+		}
+		for ci, cl := range calls {
+			name := fmt.Sprintf("f%d", ci)
+			if cl[1] == 0 {
+				res = append(res, callv(name, i(7)))
+			} else {
+				res = append(res, call{callee: v(name), args: []arg{{kind: "pos", e: i(7)}, {kind: "kw", name: "k", e: intLit{cl[1]}}}})
+			}
+		}
+		prog = append(prog, arr(res...))
+		emit(mk("G8/literal-evaluated-twice/factory", true, prog))
+	}
+	emit(tcase{Family: "G8/literal-evaluated-twice/list-chain-body", Src: "fs := [100, 200, 300]@{|i| {|base: i, twice: i * 2| [base, twice, i]}}\n[fs[0](), fs[1](), fs[2](), fs[1](base: 5), fs[0].kwargs, fs[2].kwargs]",
+		Val: `[[100, 200, 100], [200, 400, 200], [300, 600, 300], [5, 400, 200], {"base": 100, "twice": 200}, {"base": 300, "twice": 600}]`, NT: true})
+	emit(tcase{Family: "G8/literal-evaluated-twice/recursion", Src: "mk := {|n| return [] if n == 0; [{|k: n| k}, *mk(n - 1)]}\nmk(3)@{|f| f()}", Val: "[3, 2, 1]", NT: true})
+}
+
+// genG9: the first call of a function value binds names that a later call does not bind again (an extra positional
+// argument, an undeclared keyword argument, a keyword parameter): the later call sees exactly what IT received.
+func genG9(emit func(tcase)) {
+	type cl struct {
+		args []arg
+	}
+	p := func(n int) arg { return arg{kind: "pos", e: intLit{n}} }
+	kw := func(name string, n int) arg { return arg{kind: "kw", name: name, e: intLit{n}} }
+	firsts := [][]arg{{p(1), p(2)}, {p(1), p(2), p(3)}, {p(1), kw("opt", 5)}, {p(1), kw("k", 6)}, {p(1), p(2), kw("opt", 5), kw("k", 6)}}
+	bodies := map[string]node{"second-arg": argVar{"2"}, "undeclared-kw": argVar{"opt"}, "declared-kw": arr(v("k"), argVar{"_"}), "all-args": arr(argVar{"0"}, argVar{"_"}), "declared-kw-var": argVar{"k"}}
+	names := []string{"second-arg", "undeclared-kw", "declared-kw", "all-args", "declared-kw-var"}
+	for _, bn := range names {
+		for fi, first := range firsts {
+			f := funcLit{params: []string{"a"}, kw: []kwparam{{"k", i(10)}}, body: []node{bodies[bn]}}
+			// the first call itself may legitimately fail (the name is not bound): it is wrapped away by binding the value first
+			prog := []node{set("f", f), set("g", f)}
+			prog = append(prog, call{callee: group{funcLit{body: []node{call{callee: v("f"), args: first}}}}})
+			_ = fi
+			prog = append(prog, call{callee: v("f"), args: []arg{p(1)}})
+			emit(mk("G9/first-call-binds-extra-names/"+bn, true, prog))
+		}
+	}
+}
+
 // ---------------------------------------------------------------- judging
 
 func judge(c *core.Ctx, t tcase, o panrun.Obs) {
@@ -552,6 +646,9 @@ func gen(thorough bool, emit func(tcase)) {
 	genG3(emit)
 	genG4(emit)
 	genG6(emit)
+	genG7(emit)
+	genG8(emit)
+	genG9(emit)
 	if thorough {
 		genG5(3, emit)
 	} else {
